@@ -58,7 +58,7 @@ def run(cx):
     cx.rule("C16.R3", "only async-signal-safe calls between fork and exec: the pre_exec closure calls nothing but an allow-listed set of libc functions")
     cx.rule("C16.R4", "a raw descriptor has one owner: a value from into_raw_fd feeds at most one from_raw_fd, and a borrowed as_raw_fd value feeds none (table of reviewed exceptions)")
     cx.rule("C16.R5", "connection constructors agree: with_* fill reader/writer from split() of the stream they store, *_no_rw leave both empty; child/tempdir are set exactly by the spawning constructors")
-    r1(cx); r2(cx); r3(cx); r4(cx); r5(cx)
+    r1(cx); r2(cx); r3(cx); r4(cx); r5(cx); r5_split(cx)
 
 
 def r1(cx):
@@ -310,3 +310,26 @@ def r5(cx):
         if want["child"] != (ck == "Some"): why.append("child is %s, expected %s" % (ck, "Some" if want["child"] else "None"))
         if (name.startswith("with_activate")) != (tk == "Some"): why.append("tempdir is %s" % tk)
         cx.check(not why, "C16.R5", key, body.sp, "; ".join(why), note_ok="reader/writer=%s stream=Some child=%s tempdir=%s" % (rk, ck, tk))
+
+
+def r5_split(cx):
+    """Stream::split hands out two handles of the SAME socket (for every transport)"""
+    n = 0
+    for body in cx.mir.bodies("varlink"):
+        if body.promoted is not None or not body.path.endswith("::split") or not (body.impl_trait or "").endswith("Stream"): continue
+        n += 1
+        cx.saw(body)
+        du = DefUse(body); sl = Slice(body, du, extra_pass=("=branch", "=map_err", "std::boxed::Box::<T>::new"))
+        oks = [s for s in body.stmts() if s.kind == "assign" and s.lhs.l == 0 and s.rv == "agg" and isinstance(s.agg, dict) and s.agg.get("variant") == "Ok"]
+        why = []
+        if len(oks) != 1: why.append("%d Ok results" % len(oks))
+        else:
+            from vlib.facts import Place
+            tup = oks[0].ops[0]
+            for i, nm in ((0, "reader"), (1, "writer")):
+                p = Place({"l": tup.place.l, "p": list(tup.place.p) + [".%d" % i]})
+                o = sl.origins(p)
+                tc = [x for k, x in o if k == "call" and x.callee.name == "try_clone"]
+                if len(tc) != 1 or not any(k == "arg" and v == 1 for k, v in Slice(body, du).origins(tc[0].args[0])): why.append("the %s half is not try_clone() of this stream" % nm)
+        cx.check(not why, "C16.R5", "varlink:%s:both-halves-same-socket" % body.path, body.sp, "; ".join(why), note_ok="(try_clone(self), try_clone(self))")
+    cx.floor("C16.R5", "Stream::split implementations", n, 2)
